@@ -289,17 +289,11 @@ def replay(path):
         print("harness does not build:", err[-2000:])
         return 1
     ops = [l.rstrip("\n") for l in open(path) if not l.startswith("#") and l.strip()]
-    if ops and ops[0].startswith("theorem-or-audit-failure"):
-        # not an input: re-check the obligations on the current tree
-        chk = core.Check("C18", "quick", 1)
-        lib, _ = core.build_impl("tsan")
-        regenerate(chk, lib)
-        problems = chk.prove(MODULES, AUDIT)
-        for p in problems:
-            print(p[:3000])
-        if problems:
-            print(f"VIOLATION property=C18 replay={path} no-failing-input-found")
-        return 1 if problems else 0
+    if ops and ops[0].split(" ")[0] in ("theorem-or-audit-failure", "build-error", "machinery-error"):
+        # not an input: a proof obligation / the build / the machinery failed — decide again on the current tree
+        chk = core.Check("C18", "quick", int(os.environ.get("VERIF_SEED", "1")))
+        run(chk)
+        return chk.finish(level=LEVEL)
     exe_alone, err = core.build_harness(HARNESS, san="asan")
     if exe_alone is None:
         print("harness (asan) does not build:", err[-2000:])
